@@ -46,6 +46,19 @@ def run1(f, *args, facts):
     return ok[0].result
 
 
+CXX = 'TidalPy/utilities/conversions/conversions_x.pyx'
+
+
+def conv_value(impl, name, args):
+    """value of a conversion: interpreted -> the real numba function; compiled -> the compiled module when it is in sync with conversions_x.pyx, else the transliterated current source"""
+    if impl == 'interpreted':
+        r = replay.call1('TidalPy.utilities.conversions.conversions', name, *args)
+        if not r['ok']:
+            raise RuntimeError('interpreted %s%r raised %s' % (name, tuple(args), r.get('error')))
+        return r['value'], 'interpreted (numba) function'
+    return replay.pyx_value(CXX, name, list(args), ('TidalPy.utilities.conversions.conversions_x', name), extra_ns={'BadValueError': BadValueError})
+
+
 def job_inverse():
     G = Q.sym('G')
     x, M, m = Q.sym('x'), Q.sym('M'), Q.sym('m')
@@ -60,10 +73,9 @@ def job_inverse():
 
             def rp(md, a=a, b=b, impl=impl):
                 xv = float(md.get('x', 1234.5))
-                mod = 'TidalPy.utilities.conversions.conversions' if impl == 'interpreted' else 'TidalPy.utilities.conversions.conversions_x'
-                r = replay.call_real([{'module': mod, 'func': b, 'args': [xv]}])
-                r2 = replay.call_real([{'module': mod, 'func': a, 'args': [r[0]['value']]}])
-                return abs(r2[0]['value'] - xv) > 1e-12 * abs(xv), '%s(%s(%r)) = %r' % (a, b, xv, r2[0]['value'])
+                v1, note = conv_value('interpreted' if impl == 'interpreted' else 'compiled', b, [xv])
+                v2, note = conv_value('interpreted' if impl == 'interpreted' else 'compiled', a, [v1])
+                return abs(v2 - xv) > 1e-12 * abs(xv), '%s(%s(%r)) = %r [%s]' % (a, b, xv, v2, note)
             results.append(discharge(Obligation('%s: %s(%s(x)) == x and %s(%s(x)) == x for all x > 0' % (impl, a, b, b, a), z3.And(eq_goal(fa(fb(x)), x), eq_goal(fb(fa(x)), x)), facts,
                                                 replay=rp, key='inverse:%s:%s' % (impl, a))))
         o2a, a2o = fns[pre + 'orbital_motion2semi_a'], fns[pre + 'semi_a2orbital_motion']
@@ -90,12 +102,13 @@ def job_inverse():
             mod = 'TidalPy.utilities.conversions.conversions' if impl == 'interpreted' else 'TidalPy.utilities.conversions.conversions_x'
             extra = [] if impl == 'interpreted' else [39.47841760435743]      # compiled: a non-default G (4 pi^2: AU, yr, solar-mass units)
             Gv = 6.6743e-11 if impl == 'interpreted' else extra[0]
-            r = replay.call_real([{'module': mod, 'func': 'semi_a2orbital_motion', 'args': [xv, Mv, mv] + extra}])
-            r2 = replay.call_real([{'module': mod, 'func': 'orbital_motion2semi_a', 'args': [r[0]['value'], Mv, mv] + extra}])
-            if not (r[0]['ok'] and r2[0]['ok']):
-                return True, 'raised: %r %r' % (r[0].get('error'), r2[0].get('error'))
-            k3 = abs(r[0]['value'] ** 2 * xv ** 3 - Gv * (Mv + mv)) / (Gv * (Mv + mv))
-            return abs(r2[0]['value'] - xv) > 1e-9 * xv or k3 > 1e-5, 'a -> n -> a%s: %r -> %r -> %r ; n^2 a^3 / (G (M+m)) - 1 = %.3g' % (' with G = %r' % Gv if extra else '', xv, r[0]['value'], r2[0]['value'], k3)
+            try:
+                nv, note = conv_value('interpreted' if impl == 'interpreted' else 'compiled', 'semi_a2orbital_motion', [xv, Mv, mv] + extra)
+                av, note = conv_value('interpreted' if impl == 'interpreted' else 'compiled', 'orbital_motion2semi_a', [nv, Mv, mv] + extra)
+            except RuntimeError as e_:
+                return True, 'raised: %s' % e_
+            k3 = abs(nv ** 2 * xv ** 3 - Gv * (Mv + mv)) / (Gv * (Mv + mv))
+            return abs(av - xv) > 1e-9 * xv or k3 > 1e-5, 'a -> n -> a%s: %r -> %r -> %r ; n^2 a^3 / (G (M+m)) - 1 = %.3g [%s]' % (' with G = %r' % Gv if extra else '', xv, nv, av, k3, note)
         results.append(discharge(Obligation('%s: Kepler conversions are mutual inverses (a -> n -> a and n -> a -> n) for all masses' % impl, z3.And(eq_goal(back, x), eq_goal(back2, x)), facts + [Gk.re > 0],
                                             replay=rp2, key='inverse:%s:kepler' % impl)))
         results.append(discharge(Obligation('%s: n^2 a^3 == G (M + m) for the returned value' % impl, z3.And(eq_goal(n_ * n_ * x ** 3, Gk * (M + m)), eq_goal(x * x * a_ ** 3, Gk * (M + m))), facts + [Gk.re > 0],
@@ -122,10 +135,9 @@ def job_agree():
     for nm in ('m2Au', 'Au2m', 'rads2days', 'days2rads', 'sec2myr', 'myr2sec'):
         def rp(md, nm=nm):
             xv = float(md.get('x', 1.0e11))
-            r = replay.call_real([{'module': 'TidalPy.utilities.conversions.conversions', 'func': nm, 'args': [xv]},
-                                  {'module': 'TidalPy.utilities.conversions.conversions_x', 'func': nm, 'args': [xv]}])
-            a, b = r[0]['value'], r[1]['value']
-            return abs(a - b) > 1e-12 * abs(a), 'interpreted %s(%r) = %r, compiled = %r' % (nm, xv, a, b)
+            a, _ = conv_value('interpreted', nm, [xv])
+            b, note = conv_value('compiled', nm, [xv])
+            return abs(a - b) > 1e-12 * abs(a), 'interpreted %s(%r) = %r, compiled = %r [%s]' % (nm, xv, a, b, note)
         results.append(discharge(Obligation('compiled %s == interpreted %s for all x > 0' % (nm, nm), z3.And(eq_goal(py[nm](x), pyx['cf_' + nm](x)), eq_goal(py[nm](x), pyx[nm](x))), facts,
                                             replay=rp, key='agree:%s' % nm)))
     a_py = run1(py['orbital_motion2semi_a'], x, M, m, facts=facts)
@@ -136,11 +148,10 @@ def job_agree():
         xv, Mv, mv = float(md.get('x', 2.0e-5)), float(md.get('M', 1.9e27)), float(md.get('m', 8.9e22))
         out = []
         for f in ('orbital_motion2semi_a', 'semi_a2orbital_motion'):
-            r = replay.call_real([{'module': 'TidalPy.utilities.conversions.conversions', 'func': f, 'args': [xv, Mv, mv]},
-                                  {'module': 'TidalPy.utilities.conversions.conversions_x', 'func': f, 'args': [xv, Mv, mv]}])
-            if not all(q['ok'] for q in r):
-                return True, 'raised: %r' % [q.get('error') for q in r]
-            out.append((f, r[0]['value'], r[1]['value']))
+            try:
+                out.append((f, conv_value('interpreted', f, [xv, Mv, mv])[0], conv_value('compiled', f, [xv, Mv, mv])[0]))
+            except RuntimeError as e_:
+                return True, 'raised: %s' % e_
         return any(abs(a - b) > 1e-9 * abs(a) for _, a, b in out), 'interpreted vs compiled at (%r, %r, %r): %r' % (xv, Mv, mv, out)
     results.append(discharge(Obligation('compiled Kepler conversions == interpreted (same G)', z3.And(eq_goal(a_py, a_px), eq_goal(n_py, n_px)), facts,
                                         replay=rp_kepler, key='agree:kepler')))
